@@ -70,9 +70,12 @@ int cmdCases(int argc, char** argv) {
 				for (int vi = 0; vi < 6; vi++)
 					// skinned: 0 none, 1 one partition, 2 two partitions with interleaved vertex ranges whose cached
 					// shape-indexed triangles are live when the deletion happens
-					for (int skinned = 0; skinned < 3; skinned++) {
+					// 3: one partition per triangle (up to four, each with a body part id of its own): a deletion that empties
+					// several of them at once
+					for (int skinned = 0; skinned < 4; skinned++) {
 						if (skinned && (tris.empty() || std::string(vers[vi]) == "FO76")) continue;
 						if (skinned == 2 && tris.size() < 2) continue;
+						if (skinned == 3 && (tris.size() < 3 || nv < 6)) continue;
 						NifFile nif;
 						nif.Create(versionByName(vers[vi]));
 						NiShape* shape = buildShape(nif, "S", nv, tris, true);
@@ -113,6 +116,22 @@ int cmdCases(int argc, char** argv) {
 							nif.SetShapePartitions(shape, pinfo, tp);
 							nif.UpdateSkinPartitions(shape);
 						}
+						if (skinned == 3) {
+							NiVector<BSDismemberSkinInstance::PartitionInfo> pinfo;
+							std::vector<int> tp;
+							if (!nif.GetShapePartitions(shape, pinfo, tp) || pinfo.empty()) continue;
+							size_t np = std::min<size_t>(4, tp.size());
+							pinfo.clear();
+							for (size_t q = 0; q < np; q++) {
+								BSDismemberSkinInstance::PartitionInfo pi;
+								pi.partID = uint16_t(32 + 2 * q);
+								pi.flags = PF_EDITOR_VISIBLE;
+								pinfo.push_back(pi);
+							}
+							for (size_t i = 0; i < tp.size(); i++) tp[i] = int(i % np);
+							nif.SetShapePartitions(shape, pinfo, tp);
+							nif.UpdateSkinPartitions(shape);
+						}
 						// Oblivion geometry data may hold several UV sets: a second one, distinct per vertex
 						if (std::string(vers[vi]) == "OB")
 							if (auto gd = shape->GetGeomData()) {
@@ -133,11 +152,11 @@ int cmdCases(int argc, char** argv) {
 							nif.AssignExtraData(shape, std::move(ln));
 						}
 						JObj cj;
-						cj.add("case", (long long) k).add("ver", vers[vi]).add("skinned", skinned != 0).add("twoParts", skinned == 2);
+						cj.add("case", (long long) k).add("ver", vers[vi]).add("skinned", skinned != 0).add("twoParts", skinned == 2).add("manyParts", skinned == 3);
 						// normal form first: attribute values become the ones the storage format holds (halves, bytes)
 						NifFile model;
 						if (loadFromString(model, saveToString(nif, false, false)) != 0) continue;
-						if (skinned == 2) {
+						if (skinned >= 2) {
 							NiVector<BSDismemberSkinInstance::PartitionInfo> pinfo;
 							std::vector<int> tp;
 							model.GetShapePartitions(shapeByName(model, "S"), pinfo, tp);
